@@ -565,7 +565,8 @@ META = {
                   "blank alphabet) with the tree shape as solver-enumerated symbolic choices, and on a stand-in element "
                   "whose tag names are symbolic strings so that the converter's own comparisons split the cases; "
                   "totality, determinism, run-text order/multiplicity, brace balance and compositional templates are "
-                  "checked on every path.",
+                  "checked on every path; a third kernel reads sequences of generated DOCX files with solver-chosen formulas "
+                  "through read_docx and requires every document to report the conversion of its own trees.",
     "level_note": "Mostly structure exploration (K1): symbolic values are consumed by the tree generator; K2 has symbolic "
                   "data reaching the converter's branches. Trusted: ElementTree. Outside: deeper/wider trees.",
     "technique": "bounded-exhaustive symbolic structure exploration of OMML trees through the real converter (symrun "
